@@ -580,6 +580,12 @@ MUTANTS = [
     M("I6-3-unguarded-byte", ["C09"], (TK, "        let bytes = s.as_bytes();\n", "        let bytes = s.as_bytes();\n        let _first = bytes[0];\n"), base="I6-3"),
     M("c02-row-skip-before-scan", ["C02"], (FE, "        let turn = self.current_deck[self.current_turn_index as usize];\n", "        let turn = self.current_deck[self.current_turn_index as usize];\n        if self.player_entries.iter().any(|e| e.iter().any(|(cp, _)| cp[0] == turn || cp[1] == turn)) && self.current_turn_index < self.turn_to {\n            self.current_turn_index += 1;\n            self.current_river_index = self.current_turn_index + 1;\n            self.current_player_indexes.fill(0);\n            return Some(None);\n        }\n")),
     M("c02-advance-although-room", ["C02"], (FE, "        if let Some(player_index_to_increment) = player_index_to_increment {\n            self.current_player_indexes[player_index_to_increment] += 1;", "        if let (Some(player_index_to_increment), true) = (player_index_to_increment, self.current_river_index % 2 == 0) {\n            self.current_player_indexes[player_index_to_increment] += 1;")),
+    M("benign-L8-3-combo-loops", ["C05", "C09", "C12", "C10", "C06"], base="L8-3", benign=True),
+    M("L8-3-pocket-from-self", ["C05", "C12"], (RP, "for &right in &SUITS[i + 1..] {", "for &right in &SUITS[i..] {"), base="L8-3"),
+    M("L8-3-pocket-skip-one", ["C05", "C12", "C09"], (RP, "for &right in &SUITS[i + 1..] {", "for &right in &SUITS[i + 2..] {"), base="L8-3"),
+    M("L8-3-ofsuit-unfiltered", ["C05", "C12"], (RP, "                        if high_suit != kicker_suit {\n                            card_pairs.push(CardPair::new(\n                                Card::new(high, high_suit),\n                                Card::new(kicker, kicker_suit),\n                            ));\n                        }", "                        card_pairs.push(CardPair::new(\n                            Card::new(high, high_suit),\n                            Card::new(kicker, kicker_suit),\n                        ));"), base="L8-3"),
+    M("benign-L3-3-advance-helper", ["C02", "C04", "C08", "C11"], base="L3-3", benign=True),
+    M("L3-3-river-bound-off", ["C04"], (FE, "if (self.current_river_index as usize) < DECK_LEN - 1 {", "if (self.current_river_index as usize) < DECK_LEN - 2 {"), base="L3-3"),
     M("benign-F3-3-computed-flush-weight", ["C01", "C07", "C08"], base="F3-3", benign=True),
     M("F3-3-unreversed", ["C01", "C07"], (MH, "1 << (12 - u8::from(card.rank()))", "1 << u8::from(card.rank())"), base="F3-3"),
     M("F3-3-off-by-one", ["C01", "C07"], (MH, "1 << (12 - u8::from(card.rank()))", "1 << (13 - u8::from(card.rank()))"), base="F3-3"),
